@@ -240,6 +240,8 @@ class ModelInterp(Interp):
             pass
         if isinstance(e, ast.Name) and e.id in self.names:
             return self.names[e.id]
+        if isinstance(e, ast.Name) and e.id in getattr(self, "module_consts", {}):
+            return self.ev(self.module_consts[e.id])  # a module-level constant (LOGICAL_IDS = frozenset((1, 0, -1)))
         if isinstance(e, ast.Attribute):
             # a model object is a dict of its attribute values
             try:
@@ -654,3 +656,14 @@ def selection_with_axes(sel: Any, extents: Tuple[int, ...]):
     while len(out) < len(extents):
         out.append(full[len(out)])
     return tuple(out), tuple(range(len(extents)))
+
+
+def module_constants(tree: ast.AST) -> Dict[str, ast.expr]:
+    """name -> value expression of the simple module-level assignments of a module"""
+    out: Dict[str, ast.expr] = {}
+    for st in getattr(tree, "body", []):
+        if isinstance(st, ast.Assign) and len(st.targets) == 1 and isinstance(st.targets[0], ast.Name):
+            out[st.targets[0].id] = st.value
+        elif isinstance(st, ast.AnnAssign) and isinstance(st.target, ast.Name) and st.value is not None:
+            out[st.target.id] = st.value
+    return out
